@@ -44,6 +44,7 @@ def make_inputs(artdir, workdir, backend, cases, maxsteps=200000, nblocks=256, f
         tcases.append({"p": pidx[name], "name": "%s@%s" % (name, ",".join(map(str, args))),
                        "args": [_limbs(a) for a in args]})
     cfg = json.load(open(os.path.join(artdir, backend + ".config.json")))
+    cfg = norm_regs(cfg, backend)
     cfg.update({"maxsteps": maxsteps, "nblocks": nblocks, "footprint_k": footprint_k, "skip_counts": skip_counts, "strict_encode": False})
     os.makedirs(workdir, exist_ok=True)
     paths = {}
@@ -53,6 +54,15 @@ def make_inputs(artdir, workdir, backend, cases, maxsteps=200000, nblocks=256, f
         paths[nm] = p
     env = {"SCCV_PROGS": paths["progs"], "SCCV_CASES": paths["cases"], "SCCV_CFG": paths["cfg"]}
     return env, len(tcases)
+
+
+def norm_regs(o, backend):
+    """register names as the tokenizers spell them (upper case on AArch64 / RISC-V, lower case on x86-64), whatever case the backend prints"""
+    if isinstance(o, dict):
+        return {k: ((v.upper() if backend in ("a64", "rv64") else v.lower()) if k == "r" and isinstance(v, str) else norm_regs(v, backend)) for k, v in o.items()}
+    if isinstance(o, list):
+        return [norm_regs(x, backend) for x in o]
+    return o
 
 
 def _limbs(x):
